@@ -70,10 +70,15 @@ let gen_handoff st ~big =
             @ (if rnd_bool st then [ hl + (nrdb / 8192) * 8192 ] else []) in
   let segs = segments st total hot in
   let chunk = rnd_pick st [ 1; 7; 512; 4096; 8192; 65536 ] in
+  (* a quarter of the PSYNC cases: after everything was sent the link drops; what the tool asks for on the new connection decides
+     whether the stream the parser sees stays free of repeated / missing bytes *)
+  let redrop = (not dump) && (not big) && rnd_int st 4 = 0 in
   { mode = (if dump then "dump" else "psync"); start; runid; nrdb; seed_r = rnd_int st 1000; ncmd; seed_c = rnd_int st 1000;
     chunk; pause_us = (if ncmd / chunk > 400 then 0 else rnd_pick st [ 0; 0; 0; 50; 300 ]);
-    conns = [ { hdr; acts = send_acts st segs } ]; quiet = true;
-    note = Printf.sprintf "%d TCP segments" (List.length segs) }
+    conns = (if redrop then [ { hdr; acts = send_acts st segs @ [ "P150"; "D" ] };
+                              { hdr = "+CONTINUE\r\n"; acts = [ Printf.sprintf "S%d" (11 + ncmd); "P100" ] } ]
+             else [ { hdr; acts = send_acts st segs } ]); quiet = true;
+    note = Printf.sprintf "%d TCP segments%s" (List.length segs) (if redrop then "; then the link drops and the source serves the re-established PSYNC from the requested offset" else "") }
 
 (* ---- C08: traffic histories over acknowledgement ticks, drops and reconnections ---- *)
 let gen_history st ~quiet =
